@@ -167,6 +167,9 @@ func pipeScenario(r *rand.Rand, kind int) (desc string, steps []readStep) {
 				it.Toks, it.Bad, it.Fail = 0, false, false
 			}
 			st = append(st, it.step())
+			if it.E == "eof" {
+				break // a reader has nothing more to give after EOF
+			}
 		}
 		return "model-script", st
 	}
